@@ -438,6 +438,15 @@ def monitorOp (mu : Mon) (prev : Args) (toks : List String) (implOk : Bool) (out
         | some ga => if kind == "execute" && implOk && !ga.contains snd && !(mu.sub && covered) then
             [mk "C07" "C07/relay-by-removed-admin" s!"sender={snd} admins_as_set={ga}"] else []
         | none => [])
+    -- a successful SetPermissions stores exactly the submitted flags
+    let fperm := if fresh || !mu.sub || !(kind == "set_permissions" && implOk) then [] else
+      let want := parsePerm (a.str "perm")
+      match AMap.get? cPerm spender with
+      | some got => if want == got then [] else
+          [mk "C07" "C07/permissions-not-updated" s!"subkey={spender} submitted={a.str "perm"}",
+           mk "C17" "C17/set-permissions-no-effect" s!"subkey={spender} submitted={a.str "perm"}"]
+      | none => if want == parsePerm "" then [] else
+          [mk "C07" "C07/permissions-not-updated" s!"subkey={spender} submitted={a.str "perm"} stored=-"]
     -- ---------- C08
     let keys := (pRaw.map (·.1) ++ cRaw.map (·.1)).eraseDups
     let changedAl := keys.filter fun k => AMap.get? pRaw k != AMap.get? cRaw k
@@ -479,6 +488,18 @@ def monitorOp (mu : Mon) (prev : Args) (toks : List String) (implOk : Bool) (out
           (if al.expires != e then [mk "C08" "C08/expiry-not-recorded" s!"requested={e.render} stored={al.expires.render}"] else []) ++
           (if e.isExpired mu.blk then [mk "C08" "C08/expired-expiry-accepted" s!"requested={e.render}"] else [])
         | _, _ => []
+       else []) ++
+      -- an increase adds exactly the granted coin to what is still live (an expired allowance restarts from zero)
+      (if kind == "increase_allowance" && implOk then
+        let d := a.str "denom"; let amt := a.nat "amt"
+        let base : NativeBalance := match AMap.get? pRaw spender with
+          | some o => if o.expires.isExpired mu.blk then [] else o.balance
+          | none => []
+        let ds := denomsOf [base, balOf cRaw spender, [(d, amt)]]
+        ds.filterMap fun x =>
+          let want := NativeBalance.total base x + (if x == d then amt else 0)
+          let got := NativeBalance.total (balOf cRaw spender) x
+          if want == got then none else some (mk "C08" "C08/increase-effect" s!"subkey={spender} denom={x} expected={want} stored={got}")
        else []) ++
       -- one subkey's activity never changes another's permissions
       (changedPerm.filterMap fun k =>
@@ -562,7 +583,7 @@ def monitorOp (mu : Mon) (prev : Args) (toks : List String) (implOk : Bool) (out
         if implOk && wasAdmin then none
         else some (mk "C17" "C17/grant-by-non-admin" s!"permissions of {k} changed by {kind} from {snd}"))
     let mu := if !cMut && mu.frozenCfg.isNone then { mu with frozenCfg := some (cur.str "admins", "false") } else mu
-    (mu, f7 ++ fadm ++ f8 ++ fg ++ f17 ++ f17x)
+    (mu, f7 ++ fadm ++ fperm ++ f8 ++ fg ++ f17 ++ f17x)
 
 def wlScen : Scen MState Mon where
   init h := { sub := false, pool := h.list "pool" }
